@@ -9,7 +9,7 @@ import copy
 import random
 
 from ..common import Result, sut, digest
-from ..taps import RandomTap, installed
+from ..taps import RandomTap, installed, InjectedFault
 from .. import gen
 
 ID = "C01"
@@ -25,7 +25,7 @@ RULE = ("random handshake-consistent joint degree sequences (N 1..40 quick / 1..
 ASSUMPTIONS = ["only handshake-consistent inputs are generated (column sums divisible; equal instance counts across a motif's orbits)",
                "the oracle is order- and orientation-insensitive and never looks at which stubs met, only at conservation"]
 HEADLINE = ["generations", "motif_instances", "columns_conserved", "edgelist_outputs", "network_outputs", "fast", "network", "custom",
-            "path_direct", "path_factory", "path_main-enum", "path_main-str", "shuffle_calls", "zero_degree_cases", "multi_orbit_cases", "reused_generator_cases", "in_place_edits_between_calls", "second_live_generator_cases", "library_motif_calls_checked"]
+            "path_direct", "path_factory", "path_main-enum", "path_main-str", "shuffle_calls", "zero_degree_cases", "multi_orbit_cases", "reused_generator_cases", "in_place_edits_between_calls", "second_live_generator_cases", "generations_aborted_by_a_raising_callback", "decoy_model_configured_first_cases", "library_motif_calls_checked"]
 REQUIRED = {t: {"fast": 20, "network": 20, "custom": 20, "path_direct": 10, "path_factory": 10, "path_main-enum": 10,
                 "path_main-str": 10, "zero_degree_cases": 20, "multi_orbit_cases": 10, "shuffle_calls": 100, "reused_generator_cases": 50, "in_place_edits_between_calls": 50, "second_live_generator_cases": 20}
             for t in ("quick", "thorough")}
@@ -138,6 +138,28 @@ def run_case(case, oracles=("conservation",), custom_share=0.35, force_special=F
                     del live[rng.choice(z)]
             history.append(how)
             res.count("in_place_edits_between_calls")
+        if reuse and n_s in (1, 4) and rng.random() < 0.3:
+            # injected fault: a generation in which the caller's build callback raises at its n-th call (a failpoint in the caller's own
+            # code); the caller catches it and uses the same generator object again - which must behave like a fresh one
+            state = {"n": rng.choice([1, 2, 3, 5, 8])}
+
+            def _boom(_k):
+                state["n"] -= 1
+                if state["n"] <= 0:
+                    alg_rec[1].on_build = None
+                    raise InjectedFault("raised by the caller's build callback")
+            alg_rec[1].on_build = _boom
+            try:
+                with installed(RandomTap(seed=n_s + 77, keep_log=False), "fast", "custom"):
+                    alg_rec[0].random_clustered_graph(list(live))
+                res.count("generations_with_a_callback_fault_that_never_fired")
+            except InjectedFault:
+                res.count("generations_aborted_by_a_raising_callback")
+            except Exception:
+                res.count("generations_aborted_otherwise_after_a_callback_fault")
+            finally:
+                alg_rec[1].on_build = None
+            history.append("generation aborted by a raising build callback")
         r = run_generation(res, cfg, jds if live is None else list(live), sched, oracles, alg_rec=alg_rec, jds_live=live)
         if r is None:
             break
